@@ -4,3 +4,5 @@ import PV.Model.PyNum
 import PV.Model.PyEq
 import PV.Model.Eval
 import PV.Driver.Ops
+import PV.Model.Ops
+import PV.Model.Traverse
